@@ -80,7 +80,7 @@ Print Assumptions C03_verdict_is_model_execution.
 
 (* and therefore an accepted quiet Send has left nothing behind: not in the goroutine dump, and not in the model execution the
    trace is (wait group balanced, every invocation returned) *)
-Theorem C03_verdict_no_goroutine : forall c roots, case_ok c -> model_roots c = Some roots -> roots_ok roots -> d_quiet c = true ->
+Theorem C03_verdict_no_goroutine : forall c roots0 roots, case_ok c -> model_roots c = Some roots0 -> roots = eff_roots c roots0 -> roots_ok roots -> d_quiet c = true ->
   d_leak c = false /\
   exists a, reach (beh_of (d_trace c)) (e0_of (d_trace c)) roots (d_pre c) (a_st a) /\
             wg (a_st a) = 0 /\ forall t, In t (tasks (a_st a)) -> exists f, tstage t = SDone f.
